@@ -600,3 +600,68 @@ func c17RangeExtra(c *Ctx, u *an.Unit, rs *ast.RangeStmt, cmpTotal map[string]bo
 	})
 	return why
 }
+
+// D6: what is computed for one node must not leak into the next. getNodeNameList groups node ids by data centre inside a
+// range over the live nodes (a map: the order is random); the group key is read from the node's own tags, with "" for an
+// untagged node. The variable holding the key must be declared inside the loop body (fresh per node): declared outside,
+// an untagged node inherits the data centre of whichever node happened to be visited before it.
+func c17D6(c *Ctx) {
+	r := c.R
+	r.Clause("C17-D6", "per-node values are fresh in every iteration over the node map")
+	u := c.unit("C17-D6", c17pkg+"getNodeNameList")
+	if u == nil {
+		return
+	}
+	n := 0
+	for _, s := range u.Sites {
+		if s.Kind != flow.SStore || !s.Index || s.Local == nil {
+			continue
+		}
+		ix, ok := ast.Unparen(s.LHS).(*ast.IndexExpr)
+		if !ok {
+			continue
+		}
+		if _, isMap := u.Info().TypeOf(ix.X).Underlying().(*types.Map); !isMap {
+			continue
+		}
+		// the innermost range statement over the node map that contains the store
+		var loop *ast.RangeStmt
+		u.InspectAll(func(nd ast.Node) bool {
+			if rs, ok := nd.(*ast.RangeStmt); ok && rs.Pos() <= s.Pos && s.Pos < rs.End() {
+				loop = rs
+			}
+			return true
+		})
+		if loop == nil {
+			continue
+		}
+		n++
+		// every local the key mentions is declared inside that loop (or is the loop's own key/value variable)
+		fresh, which := true, ""
+		ast.Inspect(ix.Index, func(nd ast.Node) bool {
+			id, ok := nd.(*ast.Ident)
+			if !ok {
+				return true
+			}
+			v, isVar := u.Info().ObjectOf(id).(*types.Var)
+			if !isVar || v.IsField() || v.Pkg() == nil || v.Parent() == v.Pkg().Scope() {
+				return true
+			}
+			if _, isRole := u.C.RoleOf(v); isRole {
+				return true
+			}
+			if v.Pos() < loop.Pos() || v.Pos() >= loop.End() {
+				fresh, which = false, id.Name
+			}
+			return true
+		})
+		r.Check("C17-D6", fmt.Sprintf("%s: the key of %s is computed afresh for every node", u.Name, u.C.Term(ix.X)), u.Pos(s.Pos), fresh,
+			"local "+which+" is declared outside the loop over the node map: a node without the tag inherits the value of the node visited before it (map order)")
+	}
+	r.Min("C17-D6", n, 1, "grouping stores inside the loop over the live nodes")
+}
+
+func init() {
+	old := registry["C17"].Run
+	registry["C17"].Run = func(c *Ctx) { old(c); c17D6(c) }
+}
